@@ -818,9 +818,8 @@ impl<'a> Lexer<'a> {
                                 {
                                     value.push(ch);
                                 }
-                            } else if let Some(hex) = self.scan_hex_escape(4)
-                                && let Some(ch) = char::from_u32(hex)
-                            {
+                            } else if let Some(hex) = self.scan_hex_escape(4) {
+                                let ch = self.finish_unit_escape(hex);
                                 value.push(ch);
                             }
                         }
@@ -858,6 +857,26 @@ impl<'a> Lexer<'a> {
             }
         }
         u32::from_str_radix(&hex_str, 16).ok()
+    }
+
+    /// Decode the code unit of a `\uXXXX` escape.  A high surrogate immediately followed by a
+    /// `\uXXXX` low surrogate forms one supplementary character ("\uD83D\uDE00"); a lone
+    /// surrogate cannot be represented in a UTF-8 string and becomes U+FFFD.
+    fn finish_unit_escape(&mut self, unit: u32) -> char {
+        if (0xD800..=0xDBFF).contains(&unit) {
+            let rest = self.source.get(self.current_pos..).unwrap_or("");
+            if let Some(hex) = rest.strip_prefix("\\u").and_then(|r| r.get(..4))
+                && let Ok(low) = u32::from_str_radix(hex, 16)
+                && (0xDC00..=0xDFFF).contains(&low)
+            {
+                for _ in 0..6 {
+                    self.advance();
+                }
+                let code = 0x10000 + ((unit - 0xD800) << 10) + (low - 0xDC00);
+                return char::from_u32(code).unwrap_or('\u{FFFD}');
+            }
+        }
+        char::from_u32(unit).unwrap_or('\u{FFFD}')
     }
 
     /// Scan a unicode escape sequence in an identifier.
@@ -976,11 +995,8 @@ impl<'a> Lexer<'a> {
                                     return TokenKind::Invalid('u');
                                 }
                             } else if let Some(hex) = self.scan_hex_escape(4) {
-                                if let Some(ch) = char::from_u32(hex) {
-                                    value.push(ch);
-                                } else {
-                                    return TokenKind::Invalid('u');
-                                }
+                                let ch = self.finish_unit_escape(hex);
+                                value.push(ch);
                             } else {
                                 return TokenKind::Invalid('u');
                             }
@@ -1074,11 +1090,8 @@ impl<'a> Lexer<'a> {
                                 return TokenKind::Invalid('u');
                             }
                         } else if let Some(hex) = self.scan_hex_escape(4) {
-                            if let Some(ch) = char::from_u32(hex) {
-                                value.push(ch);
-                            } else {
-                                return TokenKind::Invalid('u');
-                            }
+                            let ch = self.finish_unit_escape(hex);
+                            value.push(ch);
                         } else {
                             return TokenKind::Invalid('u');
                         }
